@@ -354,21 +354,22 @@ const fn pd(name: &'static str, olen: bool, restart: bool, raw3: bool) -> PDef {
 /// rebuilt on every call): raw strings up to length 1 only, and in the quick tier only the
 /// shortest encoding.  The enumeration per encoding stays complete.
 /// The same class holds the loaders that work on a file (each case writes and maps a scratch file).
-const SLOW: [&str; 7] = [
-    "huff.ctx.decode_x1",
-    "huff.ctx.decode_x2",
-    "huff.ctx.decode_x4",
-    "huff.ctx.decode_x8",
-    "zreorder.open",
-    "mmapvec.open.u64",
-    "mmapvec.open.u8",
-];
+fn is_slow(name: &str) -> bool {
+    name.starts_with("huff.ctx.decode_x")
+        || name.starts_with("huff.ctx.decode_with_interleaving.x")
+        || name.starts_with("zreorder.")
+        || name.starts_with("mmapvec.")
+        || name.starts_with("din.mmap.")
+        || name == "zipoffset.load_from_file"
+}
 impl PDef {
     fn slow(&self) -> bool {
-        SLOW.contains(&self.name)
+        is_slow(self.name)
     }
     fn rawmax(&self, g_raw: u64) -> u64 {
-        if self.slow() {
+        if self.slow() && self.olen && g_raw < 3 {
+            0 // quick tier, 50 ms per call x 7 expected-length variants: the empty string only
+        } else if self.slow() {
             1
         } else {
             g_raw.min(2)
@@ -477,6 +478,46 @@ fn registry() -> Vec<PDef> {
         pd("json.parse", false, false, true),
         pd("csv.parse_line", false, false, true),
         pd("adaptive.decompress", false, false, false),
+        // coverage round: public entry points of the anchor files that were not bound (work/api_audit.txt)
+        pd("huff.ctx.decode_with_interleaving.x4", true, false, false),
+        pd("huff.ctx.decode_with_interleaving.o0", true, false, false),
+        pd("fse.table.decode_symbol", false, false, true),
+        pd("fse.table.renormalize_decode", false, false, true),
+        pd("fse.decompress.parallel", false, false, false),
+        pd("fse.decompress.parallel_default", false, false, false),
+        pd("fse.decompress.realtime", false, false, false),
+        pd("fse.decompress.balanced", false, false, false),
+        pd("rans.decode_symbol", false, false, true),
+        pd("simdlz77.cfg.high_performance.decompress", false, true, false),
+        pd("simdlz77.cfg.low_latency.decompress", false, true, false),
+        pd("simdlz77.cfg.maximum_parallelism.decompress", false, true, false),
+        pd("simdlz77.cfg.with_dictionary.decompress", false, true, false),
+        pd("dz.bitreader.read_bits", false, false, true),
+        pd("dz.compression_type.from_u8", false, false, true),
+        pd("zipoffset.load_from_file", false, false, false),
+        pd("mmapvec.open_ro.u64", false, false, false),
+        pd("mmapvec.open_mutate.u64", false, false, false),
+        pd("mmapvec.open_mutate.u8", false, false, false),
+        pd("complex.compat.hashmap", false, false, false),
+        pd("complex.compat.option", false, false, false),
+        pd("complex.fast.tuple2", false, false, false),
+        pd("complex.new.btreemap", false, false, false),
+        pd("smartptr.cfg.performance_optimized.rc_string", false, false, false),
+        pd("smartptr.cfg.robust.box_vec_string", false, false, false),
+        pd("smartptr.cfg.space_optimized.rc_vec_u32", false, false, false),
+        pd("din.fn_slice.lp_string", false, false, true),
+        pd("din.fn_reader.lp_bytes", false, false, false),
+        pd("din.mmap.lp_string", false, false, false),
+        pd("din.mmap.prims", false, false, false),
+        pd("din.slice.prims", false, false, true),
+        pd("din.reader.prims", false, false, true),
+        pd("hex.parse_hex_byte", false, false, true),
+        pd("hex.is_valid_hex", false, false, true),
+        pd("hex.char_to_nibble", false, false, true),
+        pd("dz.remove_fse_compression.pa_zip", false, false, true),
+        pd("dz.remove_fse_compression.fast_pa_zip", false, false, false),
+        pd("dz.fse_unzip_reference", true, false, false),
+        pd("dz.fse.decompress.fast_pa_zip", false, true, false),
     ];
     for t in ["tuple2", "array4", "option", "result", "hashmap", "hashset", "btreemap", "btreeset"] {
         v.push(pd(Box::leak(format!("complex.meta.{t}").into_boxed_str()), false, false, false));
@@ -572,6 +613,10 @@ fn ctx_encoder(p: &[u8], order: HuffmanOrder, cur: Option<&Enc>) -> Option<Conte
 
 fn complex_setup<T: ComplexSerialize + 'static>(meta: bool, vals: Vec<T>, el: &mut EncList) -> Runner {
     let cfg = if meta { ComplexTypeConfig::safe() } else { ComplexTypeConfig::compact() };
+    complex_setup_cfg(cfg, vals, el)
+}
+
+fn complex_setup_cfg<T: ComplexSerialize + 'static>(cfg: ComplexTypeConfig, vals: Vec<T>, el: &mut EncList) -> Runner {
     let ser = ComplexTypeSerializer::new(cfg);
     if el.want {
         for (i, v) in vals.iter().enumerate() {
@@ -584,7 +629,11 @@ fn complex_setup<T: ComplexSerialize + 'static>(meta: bool, vals: Vec<T>, el: &m
 }
 
 fn smart_setup<T: SerializableType + 'static, P: SmartPtrSerialize<T> + 'static>(vals: Vec<P>, el: &mut EncList) -> Runner {
-    let ser = SmartPtrSerializer::default();
+    smart_setup_cfg(zipora::io::SmartPtrConfig::default(), vals, el)
+}
+
+fn smart_setup_cfg<T: SerializableType + 'static, P: SmartPtrSerialize<T> + 'static>(cfg: zipora::io::SmartPtrConfig, vals: Vec<P>, el: &mut EncList) -> Runner {
+    let ser = SmartPtrSerializer::new(cfg);
     if el.want {
         for (i, v) in vals.iter().enumerate() {
             if let Ok(b) = ser.serialize_to_bytes::<T, P>(v) {
@@ -593,6 +642,75 @@ fn smart_setup<T: SerializableType + 'static, P: SmartPtrSerialize<T> + 'static>
         }
     }
     Box::new(move |x, _| ser.deserialize_from_bytes::<T, P>(x).is_ok())
+}
+
+/// MmapVec::open on the given bytes, then - a loaded vector must be usable - what a user does with it.
+/// mode open: read over the reported length; open_ro: the same under MmapVecConfig::read_only();
+/// open_mutate: the mutating operations (pop / push / as_mut_slice / reserve / resize / truncate /
+/// shrink_to_fit / clear) on the opened vector.
+fn mmapvec_setup<T: Copy + 'static>(mode: String, mk: fn(usize) -> T, tmp: &Path, el: &mut EncList) -> Runner {
+    let path = tmp.join("mmapvec.bin");
+    if el.want {
+        // small capacities: every byte of the 80-byte header and a few elements are mutated; the
+        // mutating mode costs tens of milliseconds per case (file growth, sync)
+        let (cap, ns): (usize, [usize; 3]) = if mode == "open_mutate" { (8, [3, 8, 5]) } else { (16, [5, 16, 11]) };
+        for (i, n) in ns.iter().enumerate() {
+            let p = tmp.join(format!("mmapvec-enc{i}.bin"));
+            let cfg = MmapVecConfig { initial_capacity: cap, ..Default::default() };
+            let ok = (|| -> zipora::error::Result<()> {
+                let mut v = MmapVec::<T>::create(&p, cfg)?;
+                for j in 0..*n {
+                    v.push(mk(j))?;
+                }
+                v.sync()
+            })();
+            if ok.is_ok() {
+                if let Ok(bytes) = fs::read(&p) {
+                    el.add(i, bytes, 0, vec![]);
+                }
+            }
+            let _ = fs::remove_file(&p);
+        }
+    }
+    Box::new(move |x, _| {
+        if fs::write(&path, x).is_err() {
+            panic!("c15: cannot write scratch file");
+        }
+        let cfg = if mode == "open_ro" { MmapVecConfig::read_only() } else { MmapVecConfig { initial_capacity: 64, ..Default::default() } };
+        match MmapVec::<T>::open(&path, cfg) {
+            Ok(mut v) => {
+                let n = v.len();
+                let _ = (v.capacity(), v.memory_usage(), v.is_empty());
+                let st = v.stats();
+                std::hint::black_box(st.memory_efficiency());
+                if n > 0 {
+                    std::hint::black_box((v.get(0).copied(), v.get(n - 1).copied()));
+                    let s = v.as_slice();
+                    std::hint::black_box(s[s.len() / 2]);
+                    std::hint::black_box((&v).into_iter().take(4096).count());
+                }
+                if mode == "open_mutate" {
+                    let _ = v.pop();
+                    let _ = v.push(mk(1));
+                    {
+                        let s = v.as_mut_slice();
+                        if let Some(last) = s.last_mut() {
+                            *last = mk(2);
+                        }
+                    }
+                    let _ = v.reserve(8);
+                    let _ = v.resize(n.min(4096) + 3, mk(3));
+                    let _ = v.truncate(1);
+                    let _ = v.shrink_to_fit();
+                    let _ = v.clear();
+                    let _ = v.push(mk(4));
+                    let _ = v.sync();
+                }
+                true
+            }
+            Err(_) => false,
+        }
+    })
 }
 
 fn pazip_new() -> Option<PaZipCompressor> {
@@ -624,6 +742,406 @@ fn setup(name: &str, pl: &[Vec<u8>], want_encs: bool, cur: Option<&Enc>, tmp: &P
     let mut el = EncList { v: vec![], want: want_encs };
     let cp = cur.map(|e| e.payload).unwrap_or(0).min(pl.len() - 1);
     let run: Runner = match name {
+        // ---------------------------------------------------------------- coverage round
+        "huff.ctx.decode_with_interleaving.x4" | "huff.ctx.decode_with_interleaving.o0" => {
+            use zipora::entropy::huffman::InterleavingFactor;
+            let x4 = name.ends_with("x4");
+            let order = if x4 { HuffmanOrder::Order1 } else { HuffmanOrder::Order0 };
+            if want_encs {
+                for (pi, p) in pl.iter().enumerate() {
+                    if let Ok(e) = ContextualHuffmanEncoder::new(p, HuffmanOrder::Order1) {
+                        if let Ok(b) = e.encode_with_interleaving(p, InterleavingFactor::X4) {
+                            let aux = if x4 { e.serialize() } else { ContextualHuffmanEncoder::new(p, order).map(|o| o.serialize()).unwrap_or_default() };
+                            el.add(pi, b, p.len(), aux);
+                        }
+                    }
+                }
+            }
+            match ctx_encoder(&pl[cp], order, cur) {
+                // Order-0 encoder: the call must refuse (interleaving is Order-1 only), whatever the bytes
+                Some(enc) => Box::new(move |x, n| enc.decode_with_interleaving(x, n, InterleavingFactor::X4).is_ok()),
+                None => Box::new(|_, _| false),
+            }
+        }
+        "fse.table.decode_symbol" | "fse.table.renormalize_decode" => {
+            use zipora::entropy::fse::FseTable;
+            // the state a decoder reads from the stream is 8 bytes of input
+            if want_encs {
+                el.add(0, 1u64.to_le_bytes().iter().chain(b"tail bytes of the stream".iter()).copied().collect(), 0, vec![]);
+                el.add(1, 4095u64.to_le_bytes().iter().chain([0x12u8, 0x34, 0x56].iter()).copied().collect(), 0, vec![]);
+            }
+            match FseTable::new(&freqs_of(&pl[cp]), &FseConfig::default()) {
+                Ok(t) => {
+                    let sym = name.ends_with("decode_symbol");
+                    Box::new(move |x, _| {
+                        if x.len() < 8 {
+                            return false;
+                        }
+                        let st = u64::from_le_bytes([x[0], x[1], x[2], x[3], x[4], x[5], x[6], x[7]]);
+                        if sym {
+                            let (s, next) = t.decode_symbol(st);
+                            std::hint::black_box((s, next));
+                            true
+                        } else {
+                            let mut pos = 0usize;
+                            let mut state = st;
+                            let mut steps = 0;
+                            while let Some(ns) = t.renormalize_decode(state, &x[8..], &mut pos) {
+                                state = ns;
+                                steps += 1;
+                                if steps > 64 || pos >= x.len() - 8 {
+                                    break;
+                                }
+                            }
+                            steps > 0
+                        }
+                    })
+                }
+                Err(_) => Box::new(|_, _| false),
+            }
+        }
+        "fse.decompress.parallel" | "fse.decompress.parallel_default" | "fse.decompress.realtime" | "fse.decompress.balanced" => {
+            // parallel: the block-structured stream (block count + block sizes) that compress() writes for
+            // data beyond 2 blocks; reached here with a small block size instead of a 256 KiB payload
+            let cfg = |nm: &str| -> FseConfig {
+                if nm.contains("parallel") {
+                    FseConfig { parallel_blocks: Some(2), block_size: 128, ..FseConfig::default() }
+                } else if nm.ends_with("realtime") {
+                    FseConfig::realtime()
+                } else {
+                    FseConfig::balanced()
+                }
+            };
+            if want_encs {
+                for (pi, p) in pl.iter().enumerate() {
+                    let mut big = p.clone();
+                    if name.contains("parallel") {
+                        while big.len() <= 300 {
+                            big.extend_from_slice(p);
+                        }
+                    }
+                    if let Ok(b) = fse_compress_with_config(&big, cfg(name)) {
+                        el.add(pi, b, 0, vec![]);
+                    }
+                }
+            }
+            if name.ends_with("parallel_default") {
+                Box::new(|x, _| fse_decompress(x).is_ok())
+            } else {
+                let nm = name.to_string();
+                Box::new(move |x, _| fse_decompress_with_config(x, cfg(&nm)).is_ok())
+            }
+        }
+        "rans.decode_symbol" => {
+            use zipora::entropy::rans::Rans64State;
+            if want_encs {
+                for (pi, p) in pl.iter().enumerate().take(2) {
+                    if let Ok(e) = Rans64Encoder::<ParallelX1>::new(&freqs_of(p)) {
+                        if let Ok(b) = e.encode(p) {
+                            // layout of the single stream: payload bytes, then the 8-byte final state
+                            el.add(pi, b, 0, vec![]);
+                        }
+                    }
+                }
+            }
+            match Rans64Encoder::<ParallelX1>::new(&freqs_of(&pl[cp])) {
+                Ok(enc) => {
+                    let dec = Rans64Decoder::<ParallelX1>::new(&enc);
+                    Box::new(move |x, _| {
+                        if x.len() < 8 {
+                            return false;
+                        }
+                        let n = x.len();
+                        let st = u64::from_le_bytes([x[n - 8], x[n - 7], x[n - 6], x[n - 5], x[n - 4], x[n - 3], x[n - 2], x[n - 1]]);
+                        let mut state = Rans64State::from_state(st);
+                        let mut pos = n - 8;
+                        let mut ok = 0;
+                        for _ in 0..256 {
+                            match dec.decode_symbol(&mut state, x, &mut pos) {
+                                Ok(_) => ok += 1,
+                                Err(_) => break,
+                            }
+                        }
+                        let mut s2 = Rans64State::new();
+                        s2.set_state(state.state());
+                        std::hint::black_box((s2.needs_renorm_decode(), ok));
+                        ok > 0
+                    })
+                }
+                Err(_) => Box::new(|_, _| false),
+            }
+        }
+        n if n.starts_with("simdlz77.cfg.") => {
+            use zipora::compression::simd_lz77::SimdLz77Config;
+            let which = n.split('.').nth(2).unwrap().to_string();
+            let mk = move || -> Option<SimdLz77Compressor> {
+                let cfg = match which.as_str() {
+                    "high_performance" => SimdLz77Config::high_performance(),
+                    "low_latency" => SimdLz77Config::low_latency(),
+                    "maximum_parallelism" => SimdLz77Config::maximum_parallelism(),
+                    _ => {
+                        let text = b"the quick brown fox jumps over the lazy dog. the quick brown fox jumps again.";
+                        let dc = DictionaryBuilderConfig { target_dict_size: 2048, max_dict_size: 4096, validate_result: true, ..Default::default() };
+                        let d = DzDictionaryBuilder::with_config(dc).build(text).ok()?;
+                        SimdLz77Config::with_dictionary(Arc::new(d), Arc::new(text.to_vec()))
+                    }
+                };
+                SimdLz77Compressor::with_config(cfg).ok()
+            };
+            if want_encs {
+                for (pi, p) in pl.iter().enumerate() {
+                    if let Some(mut c) = mk() {
+                        let r = if n.contains("with_dictionary") { c.compress_with_dictionary(p) } else { c.compress(p) };
+                        if let Ok(b) = r {
+                            el.add(pi, b, 0, vec![]);
+                        }
+                    }
+                }
+            }
+            match mk() {
+                Some(mut c) => Box::new(move |x, _| c.decompress(x).is_ok()),
+                None => Box::new(|_, _| false),
+            }
+        }
+        "dz.bitreader.read_bits" => {
+            // first byte = the width asked for (0..=255: the API takes a u8), the rest = the bit stream
+            if want_encs {
+                el.add(0, vec![5, 0xA5, 0x5A, 0xFF, 0x00, 0x81, 0x7E, 0x33], 0, vec![]);
+                el.add(1, vec![32, 1, 2, 3, 4, 5, 6, 7, 8, 9], 0, vec![]);
+                el.add(2, vec![1, 0xF0], 0, vec![]);
+            }
+            Box::new(|x, _| {
+                if x.is_empty() {
+                    return false;
+                }
+                let w = x[0];
+                let mut r = BitReader::new(&x[1..]);
+                let mut n = 0;
+                while n < 128 {
+                    let had = r.has_bits(w);
+                    match r.read_bits(w) {
+                        Ok(v) => {
+                            std::hint::black_box((v, had, r.bit_position()));
+                            n += 1;
+                        }
+                        Err(_) => break,
+                    }
+                }
+                n > 0
+            })
+        }
+        "dz.compression_type.from_u8" => {
+            use zipora::compression::dict_zip::CompressionType;
+            if want_encs {
+                el.add(0, vec![0], 0, vec![]);
+                el.add(1, vec![7], 0, vec![]);
+            }
+            Box::new(|x, _| match x.first() {
+                Some(&b) => match CompressionType::from_u8(b) {
+                    Ok(t) => {
+                        std::hint::black_box((t.name(), t.supports(x.len(), x.len())));
+                        true
+                    }
+                    Err(_) => false,
+                },
+                None => false,
+            })
+        }
+        "zipoffset.load_from_file" => {
+            use zipora::blob_store::ZipOffsetBlobStoreConfig;
+            let path = tmp.join("zipoffset.bin");
+            if want_encs {
+                // the real file writer, one store per configuration preset
+                let presets = [ZipOffsetBlobStoreConfig::performance_optimized(), ZipOffsetBlobStoreConfig::compression_optimized(), ZipOffsetBlobStoreConfig::security_optimized()];
+                for (i, cfg) in presets.into_iter().enumerate() {
+                    let p = tmp.join(format!("zipoffset-enc{i}.bin"));
+                    if let Ok(mut b) = ZipOffsetBlobStoreBuilder::with_config(cfg) {
+                        let _ = b.add_record(&pl[0]);
+                        let _ = b.add_record(b"second record");
+                        if let Ok(mut st) = b.finish() {
+                            let _ = st.put(&pl[0]);
+                            if st.save_to_file(&p).is_ok() {
+                                if let Ok(bytes) = fs::read(&p) {
+                                    el.add(i, bytes, 0, vec![]);
+                                }
+                            }
+                        }
+                    }
+                    let _ = fs::remove_file(&p);
+                }
+            }
+            Box::new(move |x, _| {
+                if fs::write(&path, x).is_err() {
+                    panic!("c15: cannot write scratch file");
+                }
+                match ZipOffsetBlobStore::load_from_file(&path) {
+                    Ok(st) => {
+                        let n = st.len();
+                        let _ = (st.memory_usage(), st.config().compress_level);
+                        if n > 0 {
+                            let _ = st.get(0);
+                            let _ = st.get((n - 1) as u32);
+                        }
+                        true
+                    }
+                    Err(_) => false,
+                }
+            })
+        }
+        "complex.compat.hashmap" | "complex.compat.option" | "complex.fast.tuple2" | "complex.new.btreemap" => {
+            let cfg = match name.split('.').nth(1).unwrap() {
+                "compat" => ComplexTypeConfig::compatible(),
+                "fast" => ComplexTypeConfig::fast(),
+                _ => ComplexTypeConfig::new(),
+            };
+            let s = |x: &str| x.to_string();
+            match name.rsplit('.').next().unwrap() {
+                "hashmap" => {
+                    let mut m = HashMap::new();
+                    m.insert(1u32, s("one"));
+                    m.insert(300u32, s("three hundred"));
+                    complex_setup_cfg::<HashMap<u32, String>>(cfg, vec![m, HashMap::new()], &mut el)
+                }
+                "option" => complex_setup_cfg::<Option<String>>(cfg, vec![Some(s("some text")), None], &mut el),
+                "tuple2" => complex_setup_cfg::<(u32, String)>(cfg, vec![(7, s("seven")), (u32::MAX, s(""))], &mut el),
+                _ => {
+                    let mut m = BTreeMap::new();
+                    m.insert(s("a"), 1u32);
+                    m.insert(s("bb"), 2u32);
+                    complex_setup_cfg::<BTreeMap<String, u32>>(cfg, vec![m, BTreeMap::new()], &mut el)
+                }
+            }
+        }
+        "smartptr.cfg.performance_optimized.rc_string" => {
+            smart_setup_cfg::<String, Rc<String>>(zipora::io::SmartPtrConfig::performance_optimized(), vec![Rc::new("shared text".to_string()), Rc::new("x".to_string())], &mut el)
+        }
+        "smartptr.cfg.robust.box_vec_string" => smart_setup_cfg::<Vec<String>, Box<Vec<String>>>(
+            zipora::io::SmartPtrConfig::robust(),
+            vec![Box::new(vec!["a".to_string(), "bc".to_string(), "def".to_string()]), Box::new(vec![])],
+            &mut el,
+        ),
+        "smartptr.cfg.space_optimized.rc_vec_u32" => {
+            smart_setup_cfg::<Vec<u32>, Rc<Vec<u32>>>(zipora::io::SmartPtrConfig::space_optimized(), vec![Rc::new(vec![1, 2, 3, 400]), Rc::new(vec![])], &mut el)
+        }
+        "din.fn_slice.lp_string" | "din.fn_reader.lp_bytes" | "din.mmap.lp_string" | "din.mmap.prims" | "din.slice.prims" | "din.reader.prims" => {
+            use zipora::io::DataOutput;
+            if want_encs {
+                if name.ends_with("prims") {
+                    // u8 (used as a skip count), u16, u32, u64, varint, <skip>, length-prefixed bytes, 3 raw bytes
+                    for (i, skip) in [2u8, 0u8].iter().enumerate() {
+                        let mut o = zipora::io::VecDataOutput::new();
+                        let _ = o.write_u8(*skip);
+                        let _ = o.write_u16(0xBEEF);
+                        let _ = o.write_u32(0xDEAD_BEEF);
+                        let _ = o.write_u64(u64::MAX - 1);
+                        let _ = o.write_var_int(300);
+                        let _ = o.write_bytes(&vec![0xEE; *skip as usize]);
+                        let _ = o.write_length_prefixed_bytes(b"payload");
+                        let _ = o.write_bytes(b"end");
+                        el.add(i, o.into_vec(), 0, vec![]);
+                    }
+                } else {
+                    for (i, txt) in ["length prefixed text", "x"].iter().enumerate() {
+                        let mut o = zipora::io::VecDataOutput::new();
+                        let _ = o.write_length_prefixed_string(txt);
+                        el.add(i, o.into_vec(), 0, vec![]);
+                    }
+                }
+            }
+            fn prims<I: DataInput>(i: &mut I) -> zipora::error::Result<()> {
+                let k = i.read_u8()? as usize;
+                let _ = i.read_u16()?;
+                let _ = i.read_u32()?;
+                let _ = i.read_u64()?;
+                let _ = i.read_var_int()?;
+                i.skip(k)?;
+                let _ = i.read_length_prefixed_bytes()?;
+                let mut b = [0u8; 3];
+                i.read_bytes(&mut b)?;
+                std::hint::black_box((i.position(), i.has_remaining()));
+                Ok(())
+            }
+            let path = tmp.join("din.bin");
+            match name {
+                "din.fn_slice.lp_string" => Box::new(|x, _| {
+                    let mut i = zipora::io::from_slice(x);
+                    let r = i.read_length_prefixed_string().is_ok();
+                    std::hint::black_box((i.remaining(), i.has_more(), i.remaining_slice().len(), i.pos()));
+                    r
+                }),
+                "din.fn_reader.lp_bytes" => Box::new(|x, _| {
+                    let mut i = zipora::io::from_reader(Cursor::new(x));
+                    let r = i.read_length_prefixed_bytes().is_ok();
+                    std::hint::black_box(i.pos());
+                    r
+                }),
+                "din.slice.prims" => Box::new(|x, _| prims(&mut SliceDataInput::new(x)).is_ok()),
+                "din.reader.prims" => Box::new(|x, _| prims(&mut ReaderDataInput::new(Cursor::new(x))).is_ok()),
+                _ => {
+                    let lp = name.ends_with("lp_string");
+                    Box::new(move |x, _| {
+                        if fs::write(&path, x).is_err() {
+                            panic!("c15: cannot write scratch file");
+                        }
+                        // an empty file cannot be mapped: from_file refuses it
+                        match zipora::io::from_file(&path) {
+                            Ok(mut i) => {
+                                let r = if lp { i.read_length_prefixed_string().is_ok() } else { prims(&mut i).is_ok() };
+                                std::hint::black_box((i.remaining(), i.len(), i.pos(), i.remaining_slice().len()));
+                                r
+                            }
+                            Err(_) => false,
+                        }
+                    })
+                }
+            }
+        }
+        "hex.parse_hex_byte" | "hex.is_valid_hex" | "hex.char_to_nibble" => {
+            use zipora::string::{hex_char_to_nibble, hex_encode_upper, is_valid_hex, parse_hex_byte};
+            if want_encs {
+                el.add(0, hex_encode_upper(&pl[cp.min(pl.len() - 1)][..8]).into_bytes(), 0, vec![]);
+                el.add(1, b"a7".to_vec(), 0, vec![]);
+            }
+            match name {
+                "hex.parse_hex_byte" => Box::new(|x, _| x.len() >= 2 && parse_hex_byte(x[0], x[1]).is_some()),
+                "hex.is_valid_hex" => Box::new(|x, _| is_valid_hex(&lossy(x))),
+                _ => Box::new(|x, _| !x.is_empty() && x.iter().all(|&b| hex_char_to_nibble(b).is_some())),
+            }
+        }
+        "dz.remove_fse_compression.pa_zip" | "dz.remove_fse_compression.fast_pa_zip" | "dz.fse_unzip_reference" | "dz.fse.decompress.fast_pa_zip" => {
+            use zipora::compression::dict_zip::compression_types::{apply_fse_compression, fse_unzip_reference, remove_fse_compression, FseConfig as DzFseConfig};
+            let fast = name.ends_with("fast_pa_zip");
+            let cfg = move || if fast { DzFseConfig::fast_pa_zip() } else { DzFseConfig::for_pa_zip() };
+            if want_encs {
+                // the three framings of apply_fse_compression: "UN" stored (< 32 bytes), "FS" coded, "UN" when coding does not pay
+                let mut srcs: Vec<Vec<u8>> = vec![pl[0].clone(), pl[pl.len().min(3) - 1].clone()];
+                srcs.push((0..200u32).map(|i| (i.wrapping_mul(2654435761) >> 24) as u8).collect());
+                for (pi, p) in srcs.iter().enumerate() {
+                    if name.starts_with("dz.fse.decompress") {
+                        if let Ok(mut c) = DzFseCompressor::with_config(cfg()) {
+                            if let Ok(b) = c.compress(p) {
+                                el.add(pi, b, p.len(), vec![]);
+                            }
+                        }
+                    } else if let Ok(b) = apply_fse_compression(p, &cfg()) {
+                        el.add(pi, b, p.len(), vec![]);
+                    }
+                }
+            }
+            match name {
+                "dz.fse_unzip_reference" => Box::new(|x, n| {
+                    // the caller's buffer has the expected size (bounded: the argument is only a buffer length)
+                    let mut out = vec![0u8; n.min(1 << 16)];
+                    fse_unzip_reference(x, &mut out).is_ok()
+                }),
+                "dz.fse.decompress.fast_pa_zip" => match DzFseCompressor::with_config(cfg()) {
+                    Ok(mut c) => Box::new(move |x, _| c.decompress(x).is_ok()),
+                    Err(_) => Box::new(|_, _| false),
+                },
+                _ => Box::new(move |x, _| remove_fse_compression(x, &cfg()).is_ok()),
+            }
+        }
+        // ---------------------------------------------------------------- first round
         "huff.tree.deserialize" => {
             if want_encs {
                 for (pi, p) in pl.iter().enumerate() {
@@ -978,9 +1496,22 @@ fn setup(name: &str, pl: &[Vec<u8>], want_encs: bool, cur: Option<&Enc>, tmp: &P
                     Ok(m) => {
                         let _ = m.size();
                         // walk what the header declares (bounded: a huge declared size is not walked to the end)
-                        for (k, _v) in m.enumerate() {
-                            if k >= 4096 {
+                        let mut m = m;
+                        let mut k = 0;
+                        while !m.eof() && k < 4096 {
+                            let _ = m.current();
+                            let _ = m.index();
+                            if m.next().is_none() {
                                 break;
+                            }
+                            k += 1;
+                        }
+                        // a second pass after rewind (re-reads the header and the first entry)
+                        if m.rewind().is_ok() {
+                            for (k, _v) in m.enumerate() {
+                                if k >= 4096 {
+                                    break;
+                                }
                             }
                         }
                         true
@@ -989,76 +1520,13 @@ fn setup(name: &str, pl: &[Vec<u8>], want_encs: bool, cur: Option<&Enc>, tmp: &P
                 }
             })
         }
-        "mmapvec.open.u64" | "mmapvec.open.u8" => {
-            let wide = name.ends_with("u64");
-            let path = tmp.join("mmapvec.bin");
-            if want_encs {
-                for (i, n) in [5usize, 40usize].iter().enumerate() {
-                    let p = tmp.join(format!("mmapvec-enc{i}.bin"));
-                    let cfg = MmapVecConfig { initial_capacity: 64, ..Default::default() };
-                    let ok = if wide {
-                        (|| -> zipora::error::Result<()> {
-                            let mut v = MmapVec::<u64>::create(&p, cfg)?;
-                            for j in 0..*n {
-                                v.push(0x0101_0101_0101_0101u64 * (j as u64 + 1))?;
-                            }
-                            v.sync()
-                        })()
-                    } else {
-                        (|| -> zipora::error::Result<()> {
-                            let mut v = MmapVec::<u8>::create(&p, cfg)?;
-                            for j in 0..*n {
-                                v.push(j as u8 + 1)?;
-                            }
-                            v.sync()
-                        })()
-                    };
-                    if ok.is_ok() {
-                        if let Ok(bytes) = fs::read(&p) {
-                            el.add(i, bytes, 0, vec![]);
-                        }
-                    }
-                    let _ = fs::remove_file(&p);
-                }
-            }
-            Box::new(move |x, _| {
-                if fs::write(&path, x).is_err() {
-                    panic!("c15: cannot write scratch file");
-                }
-                let cfg = MmapVecConfig { initial_capacity: 64, ..Default::default() };
-                // an opened vector must be readable over the length it reports
-                if wide {
-                    match MmapVec::<u64>::open(&path, cfg) {
-                        Ok(v) => {
-                            let n = v.len();
-                            let mut acc = 0u64;
-                            if n > 0 {
-                                acc ^= v.get(0).copied().unwrap_or(0) ^ v.get(n - 1).copied().unwrap_or(0);
-                                let s = v.as_slice();
-                                acc ^= s[s.len() / 2];
-                            }
-                            std::hint::black_box(acc);
-                            true
-                        }
-                        Err(_) => false,
-                    }
-                } else {
-                    match MmapVec::<u8>::open(&path, cfg) {
-                        Ok(v) => {
-                            let n = v.len();
-                            let mut acc = 0u8;
-                            if n > 0 {
-                                acc ^= v.get(0).copied().unwrap_or(0) ^ v.get(n - 1).copied().unwrap_or(0);
-                                let s = v.as_slice();
-                                acc ^= s[s.len() / 2];
-                            }
-                            std::hint::black_box(acc);
-                            true
-                        }
-                        Err(_) => false,
-                    }
-                }
-            })
+        "mmapvec.open.u64" | "mmapvec.open_ro.u64" | "mmapvec.open_mutate.u64" => {
+            let mode = name.split('.').nth(1).unwrap().to_string();
+            mmapvec_setup::<u64>(mode, |j| 0x0101_0101_0101_0101u64.wrapping_mul(j as u64 + 1), tmp, &mut el)
+        }
+        "mmapvec.open.u8" | "mmapvec.open_mutate.u8" => {
+            let mode = name.split('.').nth(1).unwrap().to_string();
+            mmapvec_setup::<u8>(mode, |j| j as u8 + 1, tmp, &mut el)
         }
         "varint.decode" | "varint.decode_multiple" | "varint.decode_signed" | "varint.read_from" => {
             if want_encs {
@@ -1084,7 +1552,17 @@ fn setup(name: &str, pl: &[Vec<u8>], want_encs: bool, cur: Option<&Enc>, tmp: &P
             let parts: Vec<&str> = n.split('.').collect();
             let strat = STRATS.iter().find(|(s, _)| *s == parts[1]).map(|(_, v)| *v).unwrap_or(VarIntStrategy::Leb128);
             let op = parts[2].to_string();
-            let enc = VarIntEncoder::new(strat);
+            // the named constructors are twins of new(strategy)
+            let enc = match strat {
+                VarIntStrategy::Leb128 => VarIntEncoder::leb128(),
+                VarIntStrategy::Zigzag => VarIntEncoder::zigzag(),
+                VarIntStrategy::Delta => VarIntEncoder::delta(),
+                VarIntStrategy::GroupVarint => VarIntEncoder::group_varint(),
+                VarIntStrategy::PrefixFree => VarIntEncoder::prefix_free(),
+                VarIntStrategy::Compact => VarIntEncoder::compact(),
+                VarIntStrategy::Simd => VarIntEncoder::simd(),
+            };
+            assert!(enc.strategy() == strat && VarIntEncoder::new(strat).strategy() == strat);
             let us: [&[u64]; 2] = [&[0, 1, 127, 128, 300, 70000, 1 << 40, u64::MAX], &[5, 6, 7, 8, 1000, 1001, 1002, 5_000_000, 5_000_001]];
             let is: [&[i64]; 2] = [&[0, -1, 1, -128, 127, 300, -70000, i64::MAX, i64::MIN], &[-5, -4, -3, 10, 11, 12, 1000, 999, 998]];
             if want_encs {
@@ -1187,7 +1665,9 @@ fn setup(name: &str, pl: &[Vec<u8>], want_encs: bool, cur: Option<&Enc>, tmp: &P
         "hex.decode" | "hex.decode_bytes" | "hex.decode_to_slice" => {
             if want_encs {
                 for (pi, p) in pl.iter().enumerate() {
-                    el.add(pi, hex_encode(p).into_bytes(), 0, vec![]);
+                    // lower case, and upper case for the second payload (both alphabets are legal input)
+                    let h = if pi == 1 { zipora::string::hex_encode_upper(p) } else { hex_encode(p) };
+                    el.add(pi, h.into_bytes(), 0, vec![]);
                 }
             }
             match name {
@@ -1327,7 +1807,9 @@ fn setup(name: &str, pl: &[Vec<u8>], want_encs: bool, cur: Option<&Enc>, tmp: &P
 // ------------------------------------------------------------------ job plan (same in parent and child)
 
 const KINDS: [u8; 6] = [b'b', b't', b's', b'm', b'a', b'c'];
-const VARIANTS: [&str; 5] = ["exact", "zero", "plus1", "p31", "max"];
+/// expected-length arguments: the right one, 0, 1 (below the stream count of the parallel coders),
+/// one less, one more, 2^31, usize::MAX
+const VARIANTS: [&str; 7] = ["exact", "zero", "one", "minus1", "plus1", "p31", "max"];
 
 #[derive(Clone, Debug)]
 struct Seg {
@@ -1342,6 +1824,8 @@ struct Seg {
 fn olen_arg(variant: &str, exact: usize) -> usize {
     match variant {
         "zero" => 0,
+        "one" => 1,
+        "minus1" => exact.saturating_sub(1),
         "plus1" => exact.wrapping_add(1),
         "p31" => 1usize << 31,
         "max" => usize::MAX,
@@ -1363,8 +1847,8 @@ fn plan(def: &PDef, enc: Option<&Enc>, g: &Generated, thorough: bool) -> Vec<Seg
                     std::process::exit(2)
                 });
                 for k in KINDS {
-                    if k == b'c' && def.slow() && def.olen && !thorough {
-                        continue; // quick tier: no window x truncation combinations for the 50 ms-per-call decoders
+                    if k == b'c' && def.slow() && !thorough {
+                        continue; // quick tier: no window x truncation combinations for the 20-50 ms-per-call parsers
                     }
                     let n = cd.by_kind.get(&k).map(|v| v.len()).unwrap_or(0);
                     segs.push(Seg { variant, kind: k, start: pos, count: n, len: l, combo: cd.combo.clone() });
@@ -1604,12 +2088,13 @@ struct JobResult {
     codes: Vec<u8>,
     panics: BTreeMap<usize, String>,
     sigs: BTreeMap<usize, String>, // how a fatal case ended
+    ooms: BTreeMap<usize, u64>,    // size of the allocation that failed (outcome oom)
     children: usize,
     tool_err: Option<String>,
     wall_ms: u64,
 }
 
-const MAX_FATAL_PER_SEG: usize = 4;
+const MAX_FATAL_PER_SEG: usize = 3;
 const MAX_TIMEOUT_PER_SEG: usize = 2;
 
 fn run_job(a: &Args, job: &JobSpec, dir: &Path, encs_file: &Path) -> JobResult {
@@ -1622,7 +2107,7 @@ fn run_job(a: &Args, job: &JobSpec, dir: &Path, encs_file: &Path) -> JobResult {
     let panics_path = dir.join("panics.txt");
     let st = StatusMap::open(&status);
     let t0 = std::time::Instant::now();
-    let mut res = JobResult { codes: vec![], panics: BTreeMap::new(), sigs: BTreeMap::new(), children: 0, tool_err: None, wall_ms: 0 };
+    let mut res = JobResult { codes: vec![], panics: BTreeMap::new(), sigs: BTreeMap::new(), ooms: BTreeMap::new(), children: 0, tool_err: None, wall_ms: 0 };
     let mut from = 0usize;
     let mut fatal = vec![0usize; job.segs.len()];
     let mut timeouts = vec![0usize; job.segs.len()];
@@ -1696,6 +2181,7 @@ fn run_job(a: &Args, job: &JobSpec, dir: &Path, encs_file: &Path) -> JobResult {
                 if in_case && phase == 1 {
                     let oom = st.get_u64(2);
                     if oom != 0 {
+                        res.ooms.insert(cur, oom);
                         Some((cur, O_OOM, format!("allocation of {oom} bytes failed under RLIMIT_AS {AS_LIMIT_MB} MiB, process aborted (signal {sig})")))
                     } else if sig == libc::SIGABRT {
                         Some((cur, O_ABORT, "SIGABRT".into()))
@@ -1729,7 +2215,9 @@ fn run_job(a: &Args, job: &JobSpec, dir: &Path, encs_file: &Path) -> JobResult {
                 timeouts[si] += 1;
             }
             from = idx + 1;
-            if fatal[si] >= MAX_FATAL_PER_SEG || timeouts[si] >= MAX_TIMEOUT_PER_SEG {
+            // (the containment self-test injects five failures into one batch and lifts the cap)
+            let cap = if std::env::var("C15_INJECT").is_ok() { usize::MAX } else { MAX_FATAL_PER_SEG };
+            if fatal[si] >= cap || (timeouts[si] >= MAX_TIMEOUT_PER_SEG && cap != usize::MAX) {
                 // the rest of this batch is not run: it is reported as skipped (never as passed)
                 let end = job.segs[si].start + job.segs[si].count;
                 for j in from..end {
@@ -1962,7 +2450,9 @@ fn run_main(a: &Args) -> i32 {
                         let d = desc_at(seg, job.enc.as_ref(), &g, idx);
                         let input = apply(ebytes, &d);
                         let msg = r.panics.get(&idx).or_else(|| r.sigs.get(&idx)).cloned().unwrap_or_default();
-                        let mut b = json!({"d": desc_to_json(&d), "o": ONAMES[c], "msg": msg, "in_len": input.len()});
+                        // size class of the failed allocation (MiB): part of the semantic trigger of the oom findings
+                        let alloc_mb = r.ooms.get(&idx).map(|&n| (n >> 20).min(i32::MAX as u64)).unwrap_or(0);
+                        let mut b = json!({"d": desc_to_json(&d), "o": ONAMES[c], "msg": msg, "in_len": input.len(), "alloc_mb": alloc_mb});
                         if input.len() <= 64 {
                             b["hex"] = json!(hex(&input));
                         }
